@@ -109,12 +109,29 @@ Definition head_of (t : term) : option string :=
 Definition is_leaf_op (o : op) : bool :=
   match o with OSymbol _ _ | OIntC _ | ORealC _ _ | OBoolC _ | OBVC _ _ | OStrC _ => true | _ => false end.
 
+(* bit-vector and Real constants: the lexical facts about their tokens are local hypotheses (closed
+   and provable by computation for every concrete constant) *)
+Definition bv_leaf_ok (D : list (string * item)) (v w : Z) : Prop :=
+  alookup (bv_string w v) D = None /\ lit_reads (bv_string w v) (TBVC v w).
+Definition real_leaf_ok (D : list (string * item)) (n d : Z) : Prop :=
+  let a := (dec_string (Z.abs n) ++ ".0")%string in
+  let b := (dec_string d ++ ".0")%string in
+  is_paren a = false /\ alookup a D = None /\ lit_reads a (TRealC (Z.abs n) 1) /\
+  ((d =? 1)%Z = false -> is_paren b = false /\ alookup b D = None /\ lit_reads b (TRealC d 1) /\
+                         apply_op PDiv [TRealC (Z.abs n) 1; TRealC d 1] = Ok (TRealC (Z.abs n) d)) /\
+  ((n <? 0)%Z = true -> apply_op PMinus [TRealC (Z.abs n) d] = Ok (TRealC n d)) /\
+  ((n <? 0)%Z = false -> Z.abs n = n).
+
 (* leaves: declared symbols, Boolean constants, integer constants *)
 Definition leaf_ok (D : list (string * item)) (o : op) : Prop :=
   match o with
   | OSymbol n ty => quote n = n /\ is_paren n = false /\ alookup n D = Some (ITerm (TSym n ty))
   | OBoolC b => alookup (if b then "true" else "false") D = Some (ITerm (TBoolC b))
   | OIntC z => alookup (dec_string (Z.abs z)) D = None
+  (* bit-vector and Real constants: the lexical facts about their tokens are local hypotheses
+     (closed and provable by computation for every concrete constant) *)
+  | OBVC v w => bv_leaf_ok D v w
+  | ORealC n d => real_leaf_ok D n d
   | _ => False
   end.
 
@@ -128,8 +145,24 @@ Definition inner_ok (D : list (string * item)) (o : op) (args : list term) : Pro
                     alookup h D = Some (IFunc n fty) /\
                     mk_function n fty args = Some (T o args) /\ chk (T o args) = Ok (T o args))).
 
+(* indexed bit-vector operators: ((_ name i ..) x) *)
+Definition idx_of (o : op) : option (string * list Z * idxfun) :=
+  match o with
+  | OBVExtract _ s e => Some ("extract", [e; s], FExtract s e)
+  | OBVRol _ k => Some ("rotate_left", [k], FRol k)
+  | OBVRor _ k => Some ("rotate_right", [k], FRor k)
+  | OBVZext _ k => Some ("zero_extend", [k], FZext k)
+  | OBVSext _ k => Some ("sign_extend", [k], FSext k)
+  | _ => None
+  end.
+Definition idx_tok_ok (z : Z) : Prop :=
+  py_int (py_int_str z) = Some z /\ is_paren (py_int_str z) = false.
+Definition indexed_ok (o : op) (args : list term) : Prop :=
+  exists name idx f x, idx_of o = Some (name, idx, f) /\ args = [x] /\ Forall idx_tok_ok idx /\
+                       apply_idx f x = Ok (T o [x]).
+
 Definition node_ok (D : list (string * item)) (o : op) (args : list term) : Prop :=
-  if is_leaf_op o then args = [] /\ leaf_ok D o else inner_ok D o args.
+  if is_leaf_op o then args = [] /\ leaf_ok D o else inner_ok D o args \/ indexed_ok o args.
 
 Fixpoint rt (D : list (string * item)) (t : term) {struct t} : Prop :=
   match t with
@@ -179,26 +212,84 @@ Proof.
     try discriminate Hh; inversion Hh; subst; reflexivity.
 Qed.
 
+Lemma parse_atom_cons s t r : toks s = t :: r -> is_paren t = false -> parse_atom s = ROk t (pop1 s).
+Proof.
+  intros Ht Hp. unfold parse_atom. rewrite (next_tok_cons s t r Ht). cbn [bind].
+  unfold is_paren in Hp. now rewrite Hp.
+Qed.
+
+Lemma print_indexed o name idx f x :
+  idx_of o = Some (name, idx, f) ->
+  print_tree (T o [x]) =
+  SList [SList (Atom "_" :: Atom name :: map (fun z => Atom (py_int_str z)) idx); print_tree x].
+Proof. destruct o; try discriminate; cbn [idx_of]; intros H; inversion H; subst; reflexivity. Qed.
+
+From PySMT.proofs Require Import SmtLex_proofs.
+Open Scope list_scope.
+
+Lemma rt_simple D : forall t, rt D t -> simpleb (print_tree t) = true.
+Proof.
+  induction t as [o args IH] using term_ind'. intros Hrt. apply rt_unfold in Hrt. destruct Hrt as [Hn Hargs].
+  unfold node_ok in Hn. destruct (is_leaf_op o) eqn:Hleaf.
+  - destruct Hn as [-> Hl]. destruct o; try discriminate Hleaf; cbn in Hl; try contradiction.
+    + destruct Hl as (Hq & Hp & _). change (print_tree (T (OSymbol n t) [])) with (Atom (quote n)).
+      rewrite Hq. cbn. now rewrite Hp.
+    + (* Real constant *)
+      unfold real_leaf_ok in Hl. cbv zeta in Hl. destruct Hl as (Hpa & _ & _ & Hdiv & _ & _).
+      change (print_tree (T (ORealC num den) [])) with (real_const num den). unfold real_const.
+      destruct (den =? 1)%Z eqn:Hd; destruct (num <? 0)%Z; cbn [simpleb forallb]; rewrite ?Hpa; try reflexivity;
+        destruct (Hdiv eq_refl) as (Hpb & _); rewrite Hpb; reflexivity.
+    + destruct b; reflexivity.
+    + pose proof (numeral_not_paren (Z.abs z) (Z.abs_nonneg z)) as Hp.
+      change (print_tree (T (OIntC z) [])) with (int_const z). unfold int_const.
+      destruct (z <? 0)%Z eqn:Hz.
+      * apply Z.ltb_lt in Hz. replace (- z)%Z with (Z.abs z) by lia. cbn. now rewrite Hp.
+      * apply Z.ltb_ge in Hz. replace z with (Z.abs z) by lia. cbn. now rewrite Hp.
+    + (* bit-vector constant *)
+      change (print_tree (T (OBVC v w) [])) with (Atom (bv_string w v)). reflexivity.
+  - destruct Hn as [(Hp & _ & h & Hh & Hparen & Hcase) | (name & idx & f & x & Hi & -> & _ & _)].
+    + rewrite (print_inner o args h Hp Hleaf Hh). cbn [simpleb]. rewrite Hparen. cbn [negb andb].
+      assert (Ha : app_head h = true).
+      { unfold app_head. destruct Hcase as [(o' & -> & _) | (n & fty & _ & -> & _)]; reflexivity. }
+      rewrite (app_head_not_quant h Ha), Ha. cbn [andb]. apply forallb_forall. intros y Hy. apply in_map_iff in Hy.
+      destruct Hy as (x & <- & Hx). rewrite Forall_forall in *. apply IH; [exact Hx | now apply Hargs].
+    + rewrite (print_indexed o name idx f x Hi). cbn [simpleb forallb String.eqb Ascii.eqb Bool.eqb andb].
+      rewrite andb_true_r. inversion IH as [|? ? Hx _]; subst. inversion Hargs; subst. now apply Hx.
+Qed.
+
+(* the tokens left after a successful recursive reading (through the machine lemma) *)
+Lemma elab_toks x s i s' rest : simpleb x = true ->
+  elab x s = ROk i s' -> toks s = flatten x ++ rest -> toks s' = rest.
+Proof. intros Hs He Ht. exact (proj2 (machine_simple x Hs 0%nat [] s i s' rest He Ht)). Qed.
+
 (* ------------------------------------------------------------------------- the induction *)
 Definition reads_back (D : list (string * item)) (t : term) : Prop :=
-  forall s, inv D s -> exists s', elab (print_tree t) s = ROk (ITerm t) s' /\ inv D s'.
+  forall s rest, inv D s -> toks s = flatten (print_tree t) ++ rest ->
+    exists s', elab (print_tree t) s = ROk (ITerm t) s' /\ inv D s' /\ toks s' = rest.
 
 Lemma elab_list_print D args : Forall (reads_back D) args ->
-  forall s, inv D s -> exists s', elab_list (map print_tree args) s = ROk (map ITerm args) s' /\ inv D s'.
+  forall s rest, inv D s -> toks s = flat_map flatten (map print_tree args) ++ rest ->
+    exists s', elab_list (map print_tree args) s = ROk (map ITerm args) s' /\ inv D s' /\ toks s' = rest.
 Proof.
-  induction 1 as [|x r Hx _ IH]; intros s Hi.
-  - exists s. split; [reflexivity | exact Hi].
-  - destruct (Hx s Hi) as (s1 & E1 & I1). destruct (IH s1 I1) as (s2 & E2 & I2).
-    exists s2. split; [|exact I2]. cbn [map]. unfold elab_list in *. cbn [elab_list_with].
+  induction 1 as [|x r Hx _ IH]; intros s rest Hi Ht.
+  - exists s. split; [reflexivity | split; [exact Hi | exact Ht]].
+  - cbn [map flat_map] in Ht. rewrite <- app_assoc in Ht.
+    destruct (Hx s _ Hi Ht) as (s1 & E1 & I1 & T1). destruct (IH s1 rest I1 T1) as (s2 & E2 & I2 & T2).
+    exists s2. split; [|split; [exact I2 | exact T2]]. cbn [map]. unfold elab_list in *. cbn [elab_list_with].
     rewrite E1. cbn [bind]. rewrite E2. reflexivity.
 Qed.
 
 Theorem elab_print D : forall t, rt D t -> reads_back D t.
 Proof.
-  induction t as [o args IH] using term_ind'. intros Hrt. apply rt_unfold in Hrt. destruct Hrt as [Hn Hargs].
+  induction t as [o args IH] using term_ind'. intros Hrt.
+  pose proof (rt_simple D _ Hrt) as Hsim.
+  apply rt_unfold in Hrt. destruct Hrt as [Hn Hargs].
   assert (Hsub : Forall (reads_back D) args).
   { rewrite Forall_forall in *. intros x Hx. apply IH; [exact Hx | now apply Hargs]. }
-  clear IH Hargs. unfold node_ok in Hn. intros s Hi.
+  clear IH Hargs. unfold node_ok in Hn. intros s rest Hi Ht.
+  (* it is enough to exhibit the result and the invariant: the tokens follow *)
+  assert (Hweak : exists s', elab (print_tree (T o args)) s = ROk (ITerm (T o args)) s' /\ inv D s');
+    [|destruct Hweak as (s' & He & Hi'); exists s'; split; [exact He | split; [exact Hi' | exact (elab_toks _ _ _ _ _ Hsim He Ht)]]].
   destruct (is_leaf_op o) eqn:Hleaf.
   - (* leaves *)
     destruct Hn as [-> Hl]. destruct o; try discriminate Hleaf; cbn in Hl; try contradiction.
@@ -206,6 +297,30 @@ Proof.
       destruct Hl as (Hq & Hp & HD). change (print_tree (T (OSymbol n t) [])) with (Atom (quote n)).
       rewrite Hq. cbn [elab]. exists (pop1 s). split; [|exact Hi].
       now rewrite (atom_declared D n _ (pop1 s) Hi HD).
+    + (* Real constant: n.0, (/ n.0 d.0), (- ..) *)
+      unfold real_leaf_ok in Hl. cbv zeta in Hl. destruct Hl as (Hpa & HDa & Hra & Hdiv & Hneg & Hpos).
+      change (print_tree (T (ORealC num den) [])) with (real_const num den). unfold real_const.
+      (* the body: the constant |num| / den *)
+      assert (Hbody : forall st, inv D st ->
+                exists st', elab (if (den =? 1)%Z then Atom (dec_string (Z.abs num) ++ ".0")
+                                  else SList [Atom "/"; Atom (dec_string (Z.abs num) ++ ".0"); Atom (dec_string den ++ ".0")]) st
+                            = ROk (ITerm (TRealC (Z.abs num) den)) st' /\ inv D st').
+      { intros st Hst. destruct (den =? 1)%Z eqn:Hd.
+        - apply Z.eqb_eq in Hd. subst den. cbn [elab].
+          destruct (atom_lit D _ _ (pop1 st) Hst HDa Hra) as (s1 & E1 & I1). exists s1. split; assumption.
+        - destruct (Hdiv eq_refl) as (Hpb & HDb & Hrb & Hop).
+          rewrite elab_app by reflexivity. change (elab_head "/" (pop1 (pop1 st))) with (ROk (IOp PDiv) (pop1 (pop1 st))).
+          cbn [bind elab_list elab_list_with elab].
+          destruct (atom_lit D _ _ (pop1 (pop1 (pop1 st))) Hst HDa Hra) as (s1 & E1 & I1). rewrite E1. cbn [bind].
+          destruct (atom_lit D _ _ (pop1 s1) I1 HDb Hrb) as (s2 & E2 & I2). rewrite E2. cbn [bind].
+          exists (pop1 s2). split; [|exact I2]. cbn [call terms_of]. rewrite Hop. reflexivity. }
+      destruct (num <? 0)%Z eqn:Hz.
+      * rewrite elab_app by reflexivity. change (elab_head "-" (pop1 (pop1 s))) with (ROk (IOp PMinus) (pop1 (pop1 s))).
+        cbn [bind elab_list elab_list_with].
+        destruct (Hbody (pop1 (pop1 s)) Hi) as (s1 & E1 & I1). rewrite E1. cbn [bind].
+        exists (pop1 s1). split; [|exact I1]. cbn [call terms_of]. rewrite (Hneg eq_refl). reflexivity.
+      * destruct (Hbody s Hi) as (s1 & E1 & I1). exists s1. split; [|exact I1].
+        rewrite E1. now rewrite (Hpos eq_refl).
     + (* Boolean constant *)
       change (print_tree (T (OBoolC b) [])) with (Atom (if b then "true" else "false")).
       cbn [elab]. exists (pop1 s). split; [|exact Hi].
@@ -215,7 +330,7 @@ Proof.
       change (print_tree (T (OIntC z) [])) with (int_const z). unfold int_const.
       destruct (z <? 0)%Z eqn:Hz.
       * apply Z.ltb_lt in Hz. replace (- z)%Z with (Z.abs z) by lia.
-        rewrite elab_app. change (elab_head "-" (pop1 (pop1 s))) with (ROk (IOp PMinus) (pop1 (pop1 s))).
+        rewrite elab_app by reflexivity. change (elab_head "-" (pop1 (pop1 s))) with (ROk (IOp PMinus) (pop1 (pop1 s))).
         cbn [bind elab_list elab_list_with elab].
         destruct (atom_lit D _ _ (pop1 (pop1 (pop1 s))) Hi HD Hr) as (s1 & E1 & I1).
         rewrite E1. cbn [bind]. exists (pop1 s1). split; [|exact I1].
@@ -223,49 +338,113 @@ Proof.
       * apply Z.ltb_ge in Hz. assert (Ez : Z.abs z = z) by lia. rewrite Ez in *. cbn [elab].
         destruct (atom_lit D _ _ (pop1 s) Hi HD Hr) as (s1 & E1 & I1).
         exists s1. split; [exact E1 | exact I1].
-  - (* inner nodes *)
-    destruct Hn as (Hp & _ & h & Hh & Hparen & Hcase).
-    rewrite (print_inner o args h Hp Hleaf Hh). rewrite elab_app.
-    destruct Hcase as [(o' & Ht & Ha) | (n & fty & -> & Ht & HD & Hf & Hc)].
-    + unfold elab_head. rewrite Ht. cbn [bind].
-      destruct (elab_list_print D args Hsub (pop1 (pop1 s)) Hi) as (s2 & E2 & I2). rewrite E2. cbn [bind].
-      exists (pop1 s2). split; [|exact I2]. cbn [call]. rewrite terms_of_map, Ha. reflexivity.
-    + unfold elab_head. rewrite Ht. rewrite (atom_declared D h _ (pop1 (pop1 s)) Hi HD). cbn [bind].
-      destruct (elab_list_print D args Hsub (pop1 (pop1 s)) Hi) as (s2 & E2 & I2). rewrite E2. cbn [bind].
-      exists (pop1 s2). split; [|exact I2]. cbn [call]. rewrite terms_of_map, Hf, Hc. reflexivity.
+    + (* bit-vector constant *)
+      destruct Hl as (HD & Hr). change (print_tree (T (OBVC v w) [])) with (Atom (bv_string w v)). cbn [elab].
+      destruct (atom_lit D _ _ (pop1 s) Hi HD Hr) as (s1 & E1 & I1). exists s1. split; assumption.
+  - destruct Hn as [(Hp & _ & h & Hh & Hparen & Hcase) | (name & idx & f & x & Hidx & -> & Htok & Hap)].
+    + (* operators and function applications *)
+      rewrite (print_inner o args h Hp Hleaf Hh) in *.
+      assert (Happ : app_head h = true).
+      { unfold app_head. destruct Hcase as [(o' & -> & _) | (n & fty & _ & -> & _)]; reflexivity. }
+      rewrite (elab_app h _ s Happ).
+      cbn [flatten flat_map] in Ht. cbn [app] in Ht.
+      replace ((h :: flat_map flatten (map print_tree args)) ++ [")"])
+        with (h :: flat_map flatten (map print_tree args) ++ [")"]) in Ht by reflexivity.
+      cbn [app] in Ht. rewrite <- app_assoc in Ht. cbn [app] in Ht.
+      pose proof (toks_pop1 _ _ _ (toks_pop1 s _ _ Ht)) as Ht2.
+      destruct Hcase as [(o' & Htab & Ha) | (n & fty & -> & Htab & HD & Hf & Hc)].
+      * unfold elab_head. rewrite Htab. cbn [bind].
+        destruct (elab_list_print D args Hsub (pop1 (pop1 s)) _ Hi Ht2) as (s2 & E2 & I2 & _). rewrite E2. cbn [bind].
+        exists (pop1 s2). split; [|exact I2]. cbn [call]. rewrite terms_of_map, Ha. reflexivity.
+      * unfold elab_head. rewrite Htab. rewrite (atom_declared D h _ (pop1 (pop1 s)) Hi HD). cbn [bind].
+        destruct (elab_list_print D args Hsub (pop1 (pop1 s)) _ Hi Ht2) as (s2 & E2 & I2 & _). rewrite E2. cbn [bind].
+        exists (pop1 s2). split; [|exact I2]. cbn [call]. rewrite terms_of_map, Hf, Hc. reflexivity.
+    + (* indexed bit-vector operators *)
+      rewrite (print_indexed o name idx f x Hidx) in *. rewrite elab_indexed. cbv zeta.
+      assert (Ht' : toks s = "(" :: "(" :: "_" :: name :: map py_int_str idx ++ ")" :: flatten (print_tree x) ++ ")" :: rest).
+      { rewrite Ht. cbn [flatten flat_map app]. rewrite flat_map_concat_map, map_map. cbn [flatten].
+        rewrite <- flat_map_concat_map.
+        replace (flat_map (fun z => [py_int_str z]) idx) with (map py_int_str idx)
+          by (clear; induction idx; cbn; congruence).
+        repeat (rewrite <- ?app_assoc; cbn [app]). rewrite ?app_nil_r. reflexivity. }
+      pose proof (toks_pop1 _ _ _ (toks_pop1 _ _ _ (toks_pop1 s _ _ Ht'))) as Ht3.
+      set (s1 := pop1 (pop1 (pop1 s))) in *.
+      assert (Hu : exists s2, underscore_item s1 = ROk (IThunkIdx f) s2 /\
+                              toks s2 = ")" :: flatten (print_tree x) ++ ")" :: rest /\ inv D s2).
+      { unfold underscore_item.
+        destruct o; try discriminate Hidx; cbn [idx_of] in Hidx; inversion Hidx; subst name idx f; clear Hidx;
+          cbn [map app] in Ht3.
+        - (* extract *)
+          inversion Htok as [|? ? (He1 & Hp1) Htok2]; subst. inversion Htok2 as [|? ? (He2 & Hp2) _]; subst.
+          rewrite (parse_atom_cons s1 _ _ Ht3 eq_refl). cbn [bind]. change ("extract" =? "extract") with true. cbv iota.
+          pose proof (toks_pop1 s1 _ _ Ht3) as T1. rewrite (parse_atom_cons _ _ _ T1 Hp1). cbn [bind].
+          pose proof (toks_pop1 _ _ _ T1) as T2. rewrite (parse_atom_cons _ _ _ T2 Hp2). cbn [bind].
+          rewrite He1, He2. eexists. split; [reflexivity|]. split; [exact (toks_pop1 _ _ _ T2) | exact Hi].
+        - inversion Htok as [|? ? (He1 & Hp1) _]; subst.
+          rewrite (parse_atom_cons s1 _ _ Ht3 eq_refl). cbn [bind].
+          change ("rotate_left" =? "extract") with false. change ("rotate_left" =? "zero_extend") with false.
+          change ("rotate_left" =? "repeat") with false. change ("rotate_left" =? "rotate_left") with true. cbv iota.
+          pose proof (toks_pop1 s1 _ _ Ht3) as T1. unfold int_arg1. rewrite (parse_atom_cons _ _ _ T1 Hp1). cbn [bind].
+          rewrite He1. eexists. split; [reflexivity|]. split; [exact (toks_pop1 _ _ _ T1) | exact Hi].
+        - inversion Htok as [|? ? (He1 & Hp1) _]; subst.
+          rewrite (parse_atom_cons s1 _ _ Ht3 eq_refl). cbn [bind].
+          change ("rotate_right" =? "extract") with false. change ("rotate_right" =? "zero_extend") with false.
+          change ("rotate_right" =? "repeat") with false. change ("rotate_right" =? "rotate_left") with false.
+          change ("rotate_right" =? "rotate_right") with true. cbv iota.
+          pose proof (toks_pop1 s1 _ _ Ht3) as T1. unfold int_arg1. rewrite (parse_atom_cons _ _ _ T1 Hp1). cbn [bind].
+          rewrite He1. eexists. split; [reflexivity|]. split; [exact (toks_pop1 _ _ _ T1) | exact Hi].
+        - inversion Htok as [|? ? (He1 & Hp1) _]; subst.
+          rewrite (parse_atom_cons s1 _ _ Ht3 eq_refl). cbn [bind].
+          change ("zero_extend" =? "extract") with false. change ("zero_extend" =? "zero_extend") with true. cbv iota.
+          pose proof (toks_pop1 s1 _ _ Ht3) as T1. unfold int_arg1. rewrite (parse_atom_cons _ _ _ T1 Hp1). cbn [bind].
+          rewrite He1. eexists. split; [reflexivity|]. split; [exact (toks_pop1 _ _ _ T1) | exact Hi].
+        - inversion Htok as [|? ? (He1 & Hp1) _]; subst.
+          rewrite (parse_atom_cons s1 _ _ Ht3 eq_refl). cbn [bind].
+          change ("sign_extend" =? "extract") with false. change ("sign_extend" =? "zero_extend") with false.
+          change ("sign_extend" =? "repeat") with false. change ("sign_extend" =? "rotate_left") with false.
+          change ("sign_extend" =? "rotate_right") with false. change ("sign_extend" =? "sign_extend") with true. cbv iota.
+          pose proof (toks_pop1 s1 _ _ Ht3) as T1. unfold int_arg1. rewrite (parse_atom_cons _ _ _ T1 Hp1). cbn [bind].
+          rewrite He1. eexists. split; [reflexivity|]. split; [exact (toks_pop1 _ _ _ T1) | exact Hi]. }
+      destruct Hu as (s2 & Eu & T2 & I2). rewrite Eu. cbn [bind].
+      assert (Hck : check_toks s1 (List.length (flat_map flatten (tl (Atom "_" :: Atom name :: map (fun z => Atom (py_int_str z)) idx)))) s2 = true).
+      { unfold check_toks. rewrite T2, Ht3. cbn [tl flat_map flatten app List.length].
+        rewrite flat_map_concat_map, map_map. cbn [flatten]. rewrite <- flat_map_concat_map.
+        replace (flat_map (fun z => [py_int_str z]) idx) with (map py_int_str idx)
+          by (clear; induction idx; cbn; congruence).
+        change (name :: map py_int_str idx ++ ")" :: flatten (print_tree x) ++ ")" :: rest)
+          with ((name :: map py_int_str idx) ++ ")" :: flatten (print_tree x) ++ ")" :: rest).
+        change (S (List.length (map py_int_str idx))) with (List.length (name :: map py_int_str idx)).
+        rewrite skipn_app_len. apply list_eqs_refl. }
+      rewrite Hck. cbn [call bind].
+      pose proof (toks_pop1 s2 _ _ T2) as T3.
+      inversion Hsub as [|? ? Hx _]; subst.
+      destruct (Hx (pop1 s2) _ I2 T3) as (s4 & E4 & I4 & _).
+      unfold elab_list. cbn [elab_list_with]. rewrite E4. cbn [bind].
+      exists (pop1 s4). split; [|exact I4]. rewrite Hap. reflexivity.
 Qed.
 
 (* ------------------------------------------------------------------------- from elab to read_back *)
-From PySMT.proofs Require Import SmtLex_proofs.
-
-Lemma rt_simple D : forall t, rt D t -> simpleb (print_tree t) = true.
+Lemma costs_le l : Forall (fun x => (cost x <= List.length (flatten x))%nat) l ->
+  (costs l <= List.length (flat_map flatten l))%nat.
 Proof.
-  induction t as [o args IH] using term_ind'. intros Hrt. apply rt_unfold in Hrt. destruct Hrt as [Hn Hargs].
-  unfold node_ok in Hn. destruct (is_leaf_op o) eqn:Hleaf.
-  - destruct Hn as [-> Hl]. destruct o; try discriminate Hleaf; cbn in Hl; try contradiction.
-    + destruct Hl as (Hq & Hp & _). change (print_tree (T (OSymbol n t) [])) with (Atom (quote n)).
-      rewrite Hq. cbn. now rewrite Hp.
-    + destruct b; reflexivity.
-    + pose proof (numeral_not_paren (Z.abs z) (Z.abs_nonneg z)) as Hp.
-      change (print_tree (T (OIntC z) [])) with (int_const z). unfold int_const.
-      destruct (z <? 0)%Z eqn:Hz.
-      * apply Z.ltb_lt in Hz. replace (- z)%Z with (Z.abs z) by lia. cbn. now rewrite Hp.
-      * apply Z.ltb_ge in Hz. replace z with (Z.abs z) by lia. cbn. now rewrite Hp.
-  - destruct Hn as (Hp & _ & h & Hh & Hparen & Hcase).
-    rewrite (print_inner o args h Hp Hleaf Hh). cbn [simpleb]. rewrite Hparen. cbn [negb andb].
-    assert (Ha : app_head h = true).
-    { unfold app_head. destruct Hcase as [(o' & -> & _) | (n & fty & _ & -> & _)]; reflexivity. }
-    rewrite Ha. cbn [andb]. apply forallb_forall. intros y Hy. apply in_map_iff in Hy.
-    destruct Hy as (x & <- & Hx). rewrite Forall_forall in *. apply IH; [exact Hx | now apply Hargs].
+  induction 1 as [|y r Hy _ IHr]; [cbn; lia|]. cbn [costs fold_right flat_map]. fold (costs r).
+  rewrite app_length. lia.
 Qed.
-
 Lemma cost_le : forall x, (cost x <= List.length (flatten x))%nat.
 Proof.
   induction x as [a|l IH] using sexp_ind'; [cbn; lia|].
-  cbn [cost flatten List.length]. rewrite app_length. cbn [List.length].
-  assert (H : (fold_right (fun y n => cost y + n) 0 l <= List.length (flat_map flatten l))%nat).
-  { induction IH as [|y r Hy _ IHr]; [cbn; lia|]. cbn [fold_right flat_map]. rewrite app_length. lia. }
-  lia.
+  destruct l as [|[h|hd] rest].
+  - cbn. lia.
+  - inversion IH as [|? ? _ IHr]; subst. pose proof (costs_le rest IHr) as Hc.
+    cbn [cost flatten flat_map List.length]. rewrite !app_length. cbn [List.length].
+    destruct (quant_head h).
+    + destruct rest as [|b0 [|body [|? ?]]]; try lia.
+      inversion IHr as [|? ? _ IH2]; subst. inversion IH2 as [|? ? Hb _]; subst.
+      cbn [flat_map]. rewrite !app_length. cbn [List.length]. lia.
+    + fold (costs rest). lia.
+  - inversion IH as [|? ? Hhd IHr]; subst. pose proof (costs_le rest IHr) as Hc.
+    cbn [cost]. fold (costs rest). cbn [flatten flat_map List.length]. rewrite !app_length.
+    cbn [List.length]. fold (flat_map flatten hd). rewrite !app_length. cbn [List.length]. lia.
 Qed.
 
 Definition tok_plainb (t : string) : bool :=
@@ -322,7 +501,8 @@ Proof.
   { apply lex_agrees_partial. unfold all_plain in Hpl. rewrite forallb_forall in Hpl.
     apply Forall_forall. intros tk Hin. apply tok_plainb_ok. now apply Hpl. }
   rewrite Hlex. set (x := print_tree t) in *. set (s0 := state_of t (flatten x, LexEof)).
-  destruct (elab_print (D_of t) t Hrt s0 (inv_state_of t _)) as (s' & He & _). fold x in He.
+  assert (Ht0 : toks s0 = flatten x ++ []) by (unfold s0; cbn [toks state_of fst]; now rewrite app_nil_r).
+  destruct (elab_print (D_of t) t Hrt s0 [] (inv_state_of t _) Ht0) as (s' & He & _). fold x in He.
   unfold get_expression.
   assert (Hfuel : exists k, expr_fuel s0 = (cost x + k)%nat).
   { exists (expr_fuel s0 - cost x)%nat. pose proof (cost_le x).
@@ -347,7 +527,7 @@ Section NodeOk.
     plain_op o = true -> is_leaf_op o = false -> head_of (T o args) = Some h -> is_paren h = false ->
     alookup h interpreted_table = Some (HOp o') -> apply_op o' args = Ok (T o args) -> node_ok D o args.
   Proof.
-    intros H1 H2 H3 H4 H5 H6. unfold node_ok. rewrite H2. split; [exact H1|]. split; [exact H2|].
+    intros H1 H2 H3 H4 H5 H6. unfold node_ok. rewrite H2. left. split; [exact H1|]. split; [exact H2|].
     exists h. repeat split; try assumption. left. exists o'. split; assumption.
   Qed.
 
@@ -431,12 +611,45 @@ Section NodeOk.
     tc (T (OFunction n (TFun ps r)) (a :: args)) <> None ->
     node_ok D (OFunction n (TFun ps r)) (a :: args).
   Proof.
-    intros Hq Hp Ht HD Hlen H. unfold node_ok. cbn [is_leaf_op]. split; [reflexivity|]. split; [reflexivity|].
+    intros Hq Hp Ht HD Hlen H. unfold node_ok. cbn [is_leaf_op]. left. split; [reflexivity|]. split; [reflexivity|].
     exists n. cbn [head_of op_head]. rewrite Hq. repeat split; try assumption. right.
     exists n, (TFun ps r). repeat split; try assumption.
     - cbn [mk_function]. now rewrite Hlen, Nat.eqb_refl.
     - now apply chk_ok.
   Qed.
+
+  (* indexed bit-vector operators; the side conditions on the index tokens (str(k) is read back as
+     k by int()) are closed and decidable for every concrete index *)
+  Lemma node_ok_indexed o x name idx f :
+    idx_of o = Some (name, idx, f) -> Forall idx_tok_ok idx -> apply_idx f x = Ok (T o [x]) ->
+    node_ok D o [x].
+  Proof.
+    intros Hi Ht Ha. unfold node_ok.
+    assert (Hl : is_leaf_op o = false) by (destruct o; try discriminate Hi; reflexivity).
+    rewrite Hl. right. exists name, idx, f, x. repeat split; assumption.
+  Qed.
+  Lemma node_ok_extract w s e x :
+    w = (e - s + 1)%Z -> (0 <= s <= e)%Z -> (w <= bv_width x)%Z ->
+    tc (T (OBVExtract w s e) [x]) <> None -> idx_tok_ok e -> idx_tok_ok s ->
+    node_ok D (OBVExtract w s e) [x].
+  Proof.
+    intros -> Hse Hw H He Hs. eapply node_ok_indexed; [reflexivity | apply Forall_cons; [exact He | apply Forall_cons; [exact Hs | apply Forall_nil]] |].
+    cbn [apply_idx]. unfold mk_bvextract.
+    replace ((e <? s) || (s <? 0))%Z with false by lia.
+    replace (bv_width x <? e - s + 1)%Z with false by lia. cbn [chko]. now apply chk_ok.
+  Qed.
+  Lemma node_ok_rol k x : tc (T (OBVRol (bv_width x) k) [x]) <> None -> idx_tok_ok k ->
+    node_ok D (OBVRol (bv_width x) k) [x].
+  Proof. intros H Hk. eapply node_ok_indexed; [reflexivity | apply Forall_cons; [exact Hk | apply Forall_nil] |]. cbn [apply_idx]. now apply chk_ok. Qed.
+  Lemma node_ok_ror k x : tc (T (OBVRor (bv_width x) k) [x]) <> None -> idx_tok_ok k ->
+    node_ok D (OBVRor (bv_width x) k) [x].
+  Proof. intros H Hk. eapply node_ok_indexed; [reflexivity | apply Forall_cons; [exact Hk | apply Forall_nil] |]. cbn [apply_idx]. now apply chk_ok. Qed.
+  Lemma node_ok_zext k x : tc (T (OBVZext (bv_width x + k) k) [x]) <> None -> idx_tok_ok k ->
+    node_ok D (OBVZext (bv_width x + k) k) [x].
+  Proof. intros H Hk. eapply node_ok_indexed; [reflexivity | apply Forall_cons; [exact Hk | apply Forall_nil] |]. cbn [apply_idx]. now apply chk_ok. Qed.
+  Lemma node_ok_sext k x : tc (T (OBVSext (bv_width x + k) k) [x]) <> None -> idx_tok_ok k ->
+    node_ok D (OBVSext (bv_width x + k) k) [x].
+  Proof. intros H Hk. eapply node_ok_indexed; [reflexivity | apply Forall_cons; [exact Hk | apply Forall_nil] |]. cbn [apply_idx]. now apply chk_ok. Qed.
 End NodeOk.
 
 (* ------------------------------------------------------------------------- the hypotheses are satisfiable *)
@@ -484,3 +697,65 @@ Qed.
 
 Example ex_term_roundtrip : read_back print_tree ex_term = Ok (ITerm ex_term).
 Proof. apply roundtrip_tree_partial; apply ex_term_rt. Qed.
+
+(* indexed operators: ((_ extract 5 2) w) etc. through the inductive theorem *)
+Definition ex_w := TSym "w" (TBV 8).
+Definition ex_v := TSym "v" (TBV 2).
+Definition ex_bv : term :=
+  T (OBVRel BUlt) [T (OBVExtract 4 2 5) [ex_w]; T (OBVZext 4 2) [T (OBVRol 2 1) [ex_v]]].
+Example ex_bv_roundtrip : read_back print_tree ex_bv = Ok (ITerm ex_bv).
+Proof.
+  apply roundtrip_tree_partial; [|vm_compute; reflexivity].
+  set (D := D_of ex_bv).
+  assert (Htok : forall k, In k [1; 2; 5]%Z -> idx_tok_ok k).
+  { intros k Hk. cbn in Hk. destruct Hk as [<-|[<-|[<-|[]]]]; split; vm_compute; reflexivity. }
+  assert (Hs : forall n ty, In (n, ty) [("w", TBV 8); ("v", TBV 2)] -> node_ok D (OSymbol n ty) []).
+  { intros n ty Hin. unfold node_ok. cbn [is_leaf_op]. split; [reflexivity|].
+    cbn in Hin. destruct Hin as [E|[E|[]]]; inversion E; subst; vm_compute; auto. }
+  unfold ex_bv, ex_w, ex_v, TSym.
+  Ltac fa := repeat (first [apply Forall_nil | apply Forall_cons]).
+  assert (Hw : rt D (T (OSymbol "w" (TBV 8)) [])) by (apply rt_unfold; split; [apply Hs; cbn; tauto | fa]).
+  assert (Hv : rt D (T (OSymbol "v" (TBV 2)) [])) by (apply rt_unfold; split; [apply Hs; cbn; tauto | fa]).
+  apply rt_unfold; split; [apply node_ok_bvrel; vm_compute; discriminate | fa].
+  - apply rt_unfold; split; [|fa; exact Hw].
+    apply node_ok_extract; try reflexivity; try (vm_compute; discriminate); try (apply Htok; cbn; tauto); cbn; lia.
+  - apply rt_unfold; split; [|fa].
+    + apply (node_ok_zext D 2 (T (OBVRol 2 1) [T (OSymbol "v" (TBV 2)) []])); [vm_compute; discriminate | apply Htok; cbn; tauto].
+    + apply rt_unfold; split; [|fa; exact Hv].
+      apply (node_ok_rol D 1 (T (OSymbol "v" (TBV 2)) [])); [vm_compute; discriminate | apply Htok; cbn; tauto].
+Qed.
+
+(* bit-vector and Real constants through the inductive theorem: the lexical hypotheses are proved by
+   computation for the concrete tokens *)
+Ltac lit_by_computation :=
+  let s := fresh "s" in let H := fresh "H" in
+  intros s H; unfold literal; cbn; rewrite ?H; reflexivity.
+Definition ex_c := TSym "c" (TBV 4).
+Definition ex_r := TSym "r" TReal.
+Definition ex_const : term :=
+  T OAnd [T OEquals [ex_c; TBVC 5 4]; T OLt [ex_r; TRealC (-3) 4]; T OLe [TRealC 7 1; ex_r]].
+Example ex_const_roundtrip : read_back print_tree ex_const = Ok (ITerm ex_const).
+Proof.
+  apply roundtrip_tree_partial; [|vm_compute; reflexivity].
+  set (D := D_of ex_const).
+  Ltac fa2 := repeat (first [apply Forall_nil | apply Forall_cons]).
+  assert (Hs : forall n ty, In (n, ty) [("c", TBV 4); ("r", TReal)] -> rt D (T (OSymbol n ty) [])).
+  { intros n ty Hin. apply rt_unfold; split; [|fa2]. unfold node_ok. cbn [is_leaf_op]. split; [reflexivity|].
+    cbn in Hin. destruct Hin as [E|[E|[]]]; inversion E; subst; vm_compute; auto. }
+  assert (Hbv : rt D (TBVC 5 4)).
+  { apply rt_unfold; split; [|fa2]. unfold node_ok. cbn [is_leaf_op leaf_ok]. split; [reflexivity|].
+    split; [vm_compute; reflexivity | lit_by_computation]. }
+  assert (Hr1 : rt D (TRealC (-3) 4)).
+  { apply rt_unfold; split; [|fa2]. unfold node_ok. cbn [is_leaf_op leaf_ok]. split; [reflexivity|].
+    unfold real_leaf_ok. cbv zeta. repeat split; try (vm_compute; reflexivity); try lit_by_computation;
+      try (intros Hx; vm_compute in Hx; discriminate Hx). }
+  assert (Hr2 : rt D (TRealC 7 1)).
+  { apply rt_unfold; split; [|fa2]. unfold node_ok. cbn [is_leaf_op leaf_ok]. split; [reflexivity|].
+    unfold real_leaf_ok. cbv zeta. repeat split; try (vm_compute; reflexivity); try lit_by_computation;
+      try (intros Hx; vm_compute in Hx; discriminate Hx). }
+  unfold ex_const, ex_c, ex_r, TSym.
+  apply rt_unfold; split; [apply node_ok_and; vm_compute; discriminate | fa2].
+  - apply rt_unfold; split; [apply node_ok_equals; vm_compute; discriminate | fa2]; [apply Hs; cbn; tauto | exact Hbv].
+  - apply rt_unfold; split; [apply node_ok_lt; vm_compute; discriminate | fa2]; [apply Hs; cbn; tauto | exact Hr1].
+  - apply rt_unfold; split; [apply node_ok_le; vm_compute; discriminate | fa2]; [exact Hr2 | apply Hs; cbn; tauto].
+Qed.
